@@ -1,9 +1,11 @@
 #!/bin/sh
-# Offline setup after a fresh restore: pre-build the native replayer and warm one Kani
-# target directory per harness crate so the first check does not pay the dependency build.
+# Offline setup after a fresh restore: pre-build the native replayers (the checks rebuild them
+# incrementally against /repo's working tree on every run) and make the work directories.
 set -e
 cd "$(dirname "$0")"
 export CARGO_NET_OFFLINE=true
 mkdir -p .work evidence replays
-(cd replayer && cargo build --offline --target-dir ../.work/replayer-target >/dev/null 2>&1 && cargo build --offline --release --target-dir ../.work/replayer-target >/dev/null 2>&1) || echo "setup: replayer build failed (checks will retry)"
+for r in replayer replayer-serde replayer-rayon; do
+  (cd $r && cargo build --offline --target-dir ../.work/$r-target >/dev/null 2>&1) || echo "setup: $r build failed (checks will retry and report)"
+done
 echo "setup done"
